@@ -1072,5 +1072,6 @@ func (g *Gen) ret(in *ssa.Return) {
 	for _, r := range in.Results {
 		res = append(res, g.val(r))
 	}
+	g.curRet = in
 	g.checkPost(res, in.Pos())
 }
